@@ -83,6 +83,9 @@ class Obj:
         self.tainted = False
         self.taint_mtimes: set = set()
         self.taint_versions: list = []
+        # after a write *during* a use: the exact (recorded mtime, compiled
+        # version) states the object can be in (None = needs compiling)
+        self.taint_pairs: list | None = None
         self.pre_version = None
         self.prepend = True       # own directory first for load:
 
@@ -556,12 +559,15 @@ class C16(CheckBase):
                 it.count = 0
                 self.trace.arm_interrupt(it)
             try:
-                return ["ok", fn()]
+                try:
+                    return ["ok", fn()]
+                finally:
+                    # (before the harness formats anything)
+                    self.trace.arm_interrupt(None)
             except (Exception, KeyboardInterrupt, SystemExit) as e:  # noqa
                 return ["exc", type(e).__name__, norm_msg(str(e))[:200],
                         [c.__name__ for c in type(e).__mro__]]
             finally:
-                self.trace.arm_interrupt(None)
                 if it is not None:
                     if it.fired is not None:
                         stats["fired"]["interrupt"] = \
@@ -651,6 +657,46 @@ class C16(CheckBase):
                     got[0])
             m = mtime_of(ob.path)
             cur = fsm.get(ob.path)
+            if ob.taint_pairs is not None and (faulted or ob.children):
+                self._pairs_to_sets(ob)
+            if ob.taint_pairs is not None:
+                # every state is a (recorded mtime, version) pair: a state
+                # whose mtime equals the file's serves its version, every
+                # other state reloads the file as it is now
+                keep = [pr for pr in ob.taint_pairs
+                        if pr[0] == m and pr[1] is not None]
+                reloads = len(keep) < len(ob.taint_pairs)
+                wants = [self.ref_render(world, pr[1], None, what, arg,
+                                         ob.fmt) for pr in keep]
+                after = list(keep)
+                if reloads:
+                    if cur is None:
+                        wants.append(["exc", "OSError"])
+                        after.append((m, None))
+                    elif broken(cur[0], ob.fmt):
+                        wants.append(["exc", "TemplateError"])
+                        after.append((m, None))
+                    else:
+                        wants.append(self.ref_render(world, cur[0], None,
+                                                     what, arg, ob.fmt))
+                        after.append((m, cur[0]))
+                check(i, op, got, wants, False)
+                uniq_ = []
+                for pr in after:
+                    if pr not in uniq_:
+                        uniq_.append(pr)
+                ob.taint_pairs = uniq_
+                cover.add("tainted-use-checked")
+                if len(uniq_) == 1:
+                    cover.add("recovered-after-midwrite")
+                    ob.tainted = False
+                    ob.taint_pairs = None
+                    ob.seen, ob.version = uniq_[0]
+                    ob.ever_cooked = True
+                    ob.children.clear()
+                    ob.compiles = counting.get(serial_of(ob.real), 0)
+                    ob.count_unknown = False
+                return True
             has_callee = bool(ob.children) or bool(
                 cur is not None and cur[0].get("callee")) or any(
                 v.get("callee") for v in ob.taint_versions)
@@ -894,6 +940,23 @@ class C16(CheckBase):
                         ob.tainted = True
                         ob.count_unknown = True
                         cover.add("midwrite")
+                        if ob.auto_reload:
+                            def ok_(v):
+                                return None if v is None or \
+                                    broken(v, ob.fmt) else v
+                            vn, mn = fsm[ob.path]
+                            prs = [(mn / NS, ok_(vn))]
+                            if v0 is None:
+                                prs += [(0, ok_(vn)), (0, None)]
+                            else:
+                                prs += [(v0[1] / NS, ok_(v0[0])),
+                                        (v0[1] / NS, ok_(vn))]
+                                if v0[1] / NS == ob.seen:
+                                    prs.append((ob.seen, ob.version))
+                            ob.taint_pairs = []
+                            for pr in prs:
+                                if pr not in ob.taint_pairs:
+                                    ob.taint_pairs.append(pr)
                     elif tainted_use(i, op, ob, got, what, arg, faulted):
                         pass
                     else:
@@ -1048,6 +1111,8 @@ class C16(CheckBase):
         (see tainted_use) until a recovery point - the first use at which
         the file exists with an mtime the object cannot have seen."""
         for o in [ob] + list(ob.children.values()):
+            if o.taint_pairs is not None:
+                self._pairs_to_sets(o)
             if not o.tainted:
                 o.taint_mtimes = {0, o.seen}
                 o.taint_versions = [o.version] if o.version else []
@@ -1059,6 +1124,16 @@ class C16(CheckBase):
             cur = fsm.get(o.path)
             if cur is not None and cur[0] not in o.taint_versions:
                 o.taint_versions.append(cur[0])
+
+    @staticmethod
+    def _pairs_to_sets(o: Obj) -> None:
+        """Fall back from exact states to the looser set form."""
+        o.taint_mtimes = {0} | {pr[0] for pr in o.taint_pairs}
+        o.taint_versions = []
+        for pr in o.taint_pairs:
+            if pr[1] is not None and pr[1] not in o.taint_versions:
+                o.taint_versions.append(pr[1])
+        o.taint_pairs = None
 
     def _v(self, kind, i, op, detail) -> dict:
         return {"kind": kind, "sig": kind,
